@@ -5,7 +5,7 @@ legal moves of the specification, each once.
 import ChessVerif.Proofs.Legal.Pawn
 import ChessVerif.Proofs.Legal.King
 import ChessVerif.Proofs.Legal.Entries
-import ChessVerif.Props.C10
+import ChessVerif.Props.C10.Basic
 
 namespace Chess.Legal
 open Chess Chess.Spec Chess.Rays
